@@ -11,3 +11,4 @@ import WowVerif.Props.C20
 import WowVerif.Props.C19
 import WowVerif.Props.C01
 import WowVerif.Props.C02
+import WowVerif.Props.C06
